@@ -29,6 +29,10 @@ def sbytes(n, name="b"):
 
 def eq(a, b):
     """symbolic equality -> 0/1/SBit for the value kinds we know"""
+    if type(a).__name__ == "SByteArray":  # (a bytearray equals the bytes with the same octets)
+        a = SBytes(list(a.v)).n()
+    if type(b).__name__ == "SByteArray":
+        b = SBytes(list(b.v)).n()
     if isinstance(a, (SBits,)) or isinstance(b, SBits):
         r = (a == b) if isinstance(a, SBits) else (b == a)
     elif isinstance(a, (SBytes,)) or isinstance(b, SBytes):
